@@ -88,7 +88,9 @@ func TestVerifPubSubSplit(t *testing.T) {
 		t.Fatal(err)
 	}
 	defer helper.Close()
-	identify(t, helper, nil, frameTypeResponse)
+	// no heartbeats on the helper connection: its answers are read with readValidate, and on a loaded machine the
+	// scenario can outlast the heartbeat interval (seen once: "_heartbeat_" instead of "OK" after 30 s)
+	identify(t, helper, map[string]interface{}{"heartbeat_interval": -1}, frameTypeResponse)
 	// next frame on the dual connection: ("msg", id) | ("resp", text) | ("err", text)
 	next := func() (string, string) {
 		for {
